@@ -18,7 +18,7 @@ theorem pyStr_inj {a b : Int} (h : pyStr a = pyStr b) : a = b := Int.repr_inj.mp
 theorem Good.of_frame {c c' : Conn} {e : List Effect} (hs : c'.sess = c.sess) (hj : c'.journal = c.journal)
     (hh : c'.hb = c.hb) (he : NoNewWrites e) : Good om c c' e :=
   ⟨fun h => by unfold OutOk at *; rw [hs, hj]; exact h, by rw [hs]; exact Int.le_refl _, he.below _,
-   Or.inl ⟨by rw [hs], by rw [hj], by rw [hj]⟩, by rw [hs]; exact ⟨rfl, rfl, hh⟩⟩
+   Or.inl ⟨by rw [hs], by rw [hj], by rw [hj]⟩, by rw [hs]; exact ⟨rfl, rfl, hh⟩, by rw [hs]; exact id⟩
 
 theorem NoNewWrites.nil : NoNewWrites [] := fun _ h => by cases h
 
@@ -146,7 +146,7 @@ theorem sendCore_good (env : Env) (m : Msg) (hnew : ownSeq m = false) :
         · cases h
         · cases h
           obtain ⟨ho, hi, hb⟩ := persist_out_fields hj
-          refine ⟨fun _ => ?_, ?_, ?_, Or.inl ⟨rfl, hi, hb⟩, rfl, rfl, rfl⟩
+          refine ⟨fun _ => ?_, ?_, ?_, Or.inl ⟨rfl, hi, hb⟩, ⟨rfl, rfl, rfl⟩, id⟩
           · show j.outSeq + 1 = c.sess.nextOut + 1
             rw [ho]
           · show c.sess.nextOut ≤ c.sess.nextOut + 1
